@@ -500,11 +500,17 @@ double Integrate_MC_Vegas(std::function<double(std::vector<double>&, const doubl
 		}
 		for(j = 0; j < ndim; j++)
 		{
-			rc = 0.0;
+			// Floor the bin weights first and sum them afterwards: an integrand that vanishes at every sample point would otherwise give dt[j] = 0 and NaN bin widths.
+			dt[j] = 0.0;
 			for(i = 0; i < nd; i++)
 			{
 				if(d[i][j] < TINY)
 					d[i][j] = TINY;
+				dt[j] += d[i][j];
+			}
+			rc = 0.0;
+			for(i = 0; i < nd; i++)
+			{
 				r[i] = pow((1.0 - d[i][j] / dt[j]) /
 							   (log(dt[j]) - log(d[i][j])),
 						   ALPH);
